@@ -74,6 +74,16 @@ func c09Done(env *c09Env, what string) {
 	verifAssert(elapsed <= int64(c09Timeout+c09Slack), what+": returns within the timeout")
 	verifAssert(verifSockOpen() == 0, what+": the socket it opened is closed when it returns")
 	verifAssert(verifGoroutines() == 0, what+": no goroutine it started is left behind")
+	verifAssert(c09GuardFree(), what+": the bind-port lock is released when it returns")
+}
+
+// c09GuardFree: the process-wide send lock (held while a fixed bind port is in use) is free.
+func c09GuardFree() bool {
+	if guard.TryLock() {
+		guard.Unlock()
+		return true
+	}
+	return false
 }
 
 func c09Directed(k int, tcp bool, what string) {
@@ -158,8 +168,14 @@ func VerifC09_BroadcastSilence() { c09Broadcast(0) }
 func VerifC09_Broadcast2()       { c09Broadcast(2) }
 
 // faults: a socket that cannot be opened, a write or a connect that fails - an error, nothing left open
-func c09Faults(route int) {
+func c09Faults(route int, bindPort bool) {
 	env := c09Setup(0, true)
+	if bindPort {
+		// a fixed bind port: the call holds the process-wide send lock while it uses the port
+		p := nondetU16("bind.port")
+		verifAssume(p >= 20000 && p < 30000)
+		env.u.bindAddr = netip.AddrPortFrom(netip.AddrFrom4([4]byte{127, 0, 0, 1}), p)
+	}
 	req := c09Request(0x20)
 	addr := &net.UDPAddr{IP: net.IPv4(127, 0, 0, 1), Port: verifPeerPort()}
 	var err error
@@ -176,6 +192,9 @@ func c09Faults(route int) {
 	verifReach("c09.faults")
 }
 
-func VerifC09_FaultsUDP()         { c09Faults(0) }
-func VerifC09_FaultsTCP()         { c09Faults(1) }
-func VerifC09_FaultsBroadcastTo() { c09Faults(2) }
+func VerifC09_FaultsUDP()              { c09Faults(0, false) }
+func VerifC09_FaultsTCP()              { c09Faults(1, false) }
+func VerifC09_FaultsBroadcastTo()      { c09Faults(2, false) }
+func VerifC09_FaultsUDPBound()         { c09Faults(0, true) }
+func VerifC09_FaultsTCPBound()         { c09Faults(1, true) }
+func VerifC09_FaultsBroadcastToBound() { c09Faults(2, true) }
